@@ -3,9 +3,78 @@
    Watchdog (dropdead), Advance, Disconnect, RunLoop included; C16's own `Inv` carries `inv_err` only for histories
    without Drop.  Stated on the job table alone, so no other invariant is needed. *)
 From Coq Require Import List NArith Bool Lia.
-From MW Require Import C16.Model C16.Proofs.
+From MW Require Import C16.Model.
 Import ListNotations.
 Open Scope N_scope.
+
+(* This file depends on C16/Model.v only (not on C16/Proofs.v): the few structural facts about the queue model it
+   needs -- which helpers leave the job table alone -- are re-proved here by case analysis on the model's code, so
+   that C19 keeps checking while the C16/C17/C18 proofs are being worked on. *)
+
+Ltac jobs_same :=
+  repeat match goal with
+         | |- context [if ?b then _ else _] => destruct b
+         | |- context [match ?x with _ => _ end] => destruct x
+         end; reflexivity.
+
+Lemma invariant_reachable : forall (P : state -> Prop),
+  (forall s o, P s -> P (fst (step s o))) -> forall h s, P s -> P (run h s).
+Proof.
+  intros P HP h. induction h as [|o h IH]; intros s Hs; [exact Hs|].
+  change (P (run h (fst (step s o)))). apply IH, HP, Hs.
+Qed.
+
+Lemma getjob_serial : forall js x j, getjob js x = Some j -> j_serial j = x.
+Proof.
+  induction js as [|y r IH]; cbn; intros x j H; [discriminate|].
+  destruct (j_serial y =? x) eqn:E; [inversion H; subst; apply N.eqb_eq; exact E|apply IH; exact H].
+Qed.
+
+Lemma pushjob_jobs : forall x s, s_jobs (pushjob x s) = s_jobs s.
+Proof. intros x s. unfold pushjob. cbv zeta. jobs_same. Qed.
+
+Lemma deliver_jobs : forall c chs x s, s_jobs (fst (deliver c chs x s)) = s_jobs s.
+Proof. intros. unfold deliver. jobs_same. Qed.
+
+Lemma preenall_jobs : forall s, s_jobs (preenall s) = s_jobs s.
+Proof. reflexivity. Qed.
+
+Lemma pop_jobs : forall c chs s, s_jobs (fst (pop_or_block c chs s)) = s_jobs s.
+Proof.
+  intros. unfold pop_or_block. cbv zeta. destruct (heads _ _) as [x|]; [|reflexivity].
+  destruct (getjob _ _); [|reflexivity]. rewrite deliver_jobs. reflexivity.
+Qed.
+
+Lemma shutdown_jobs : forall l s, s_jobs (shutdown_loop l s) = s_jobs s.
+Proof.
+  induction l as [|[i w] r IH]; intro s; cbn [shutdown_loop]; [reflexivity|].
+  destruct (is_done (s_jobs s) w); [apply IH|]. rewrite IH, pushjob_jobs. reflexivity.
+Qed.
+
+Lemma die_jobs : forall c s, s_jobs (fst (die c s)) = s_jobs s.
+Proof. intros. unfold die. cbv zeta. cbn [fst]. rewrite shutdown_jobs. reflexivity. Qed.
+
+Lemma run_event_jobs : forall e s, s_jobs (fst (run_event e s)) = s_jobs s.
+Proof.
+  intros e s. destruct e as [c|c|ser]; cbn [run_event].
+  - destruct (c_st (get_conn (s_conns s) c)) as [|chs [x|]|w|]; try reflexivity.
+    destruct (is_done (s_jobs s) x); [apply pop_jobs|apply deliver_jobs].
+  - destruct (c_st (get_conn (s_conns s) c)) as [|chs mb|w|]; try reflexivity; rewrite die_jobs; try reflexivity.
+    destruct mb as [x|]; [|reflexivity]. cbv zeta.
+    destruct (is_done (s_jobs (set_waiters (remove_waiter c (s_waiters s)) s)) x); [reflexivity|].
+    rewrite pushjob_jobs. reflexivity.
+  - destruct (release ser (s_jobs s) (s_conns s)). jobs_same.
+Qed.
+
+Lemma run_events_jobs : forall es s, s_jobs (fst (run_events es s)) = s_jobs s.
+Proof.
+  induction es as [|e r IH]; intro s; cbn [run_events]; [reflexivity|].
+  pose proof (run_event_jobs e s) as H1. destruct (run_event e s) as [s1 o1]. cbn [fst] in H1.
+  specialize (IH s1). destruct (run_events r s1) as [s2 o2]. cbn [fst] in *. congruence.
+Qed.
+
+Lemma mark_ids : forall x u s, s_ids (mark_finished x u s) = s_ids s.
+Proof. intros x u s. unfold mark_finished. jobs_same. Qed.
 
 (* a job object that is not done has neither an error nor a result (jobs.py: both are class-level None until
    _mark_finished assigns them together with done = True) *)
@@ -76,7 +145,7 @@ Qed.
 Lemma fd_push_fresh : forall s j0, FD s -> j_err j0 = ENone -> j_res j0 = None ->
   forall ser c, FD (pushjob ser (set_jobs (j0 :: s_jobs s) (set_count c s))).
 Proof.
-  intros s j0 H He Hr ser c. eapply fd_same; [apply (proj1 (pushjob_jobs ser _))|].
+  intros s j0 H He Hr ser c. eapply fd_same; [apply pushjob_jobs|].
   intros j [Hj|Hj] D; [subst j; auto|apply H; assumption].
 Qed.
 
@@ -101,10 +170,8 @@ Proof.
     + eapply fd_same; [|exact H]. reflexivity.
   - destruct (c_st (get_conn (s_conns s) c)); cbn [fst]; try exact H; (eapply fd_same; [|exact H]; reflexivity).
   - cbn [fst]. eapply fd_same; [|exact H]. reflexivity.
-  - destruct (is_idle c s); [|exact H]. destruct (id_lookup (s_ids s) i) as [ser|]; [|exact H].
-    destruct (getjob (s_jobs s) ser) as [j|]; [|exact H].
-    destruct (j_done j && negb (done_pending ser (s_hub s))); [destruct (j_drop j)|]; cbn [fst]; try exact H;
-      (eapply fd_same; [|exact H]; reflexivity).
+  - assert (E : s_jobs (fst (step s (Wait c i))) = s_jobs s) by (cbn [step]; jobs_same).
+    cbn [step] in E. eapply fd_same; [exact E|exact H].
   - exact H.
   - destruct (id_lookup (s_ids s) i) as [ser|]; [|exact H]. cbn [fst].
     eapply fd_setjob; [reflexivity| |exact H]. intro j. right. cbn. auto.
